@@ -1,4 +1,5 @@
 import Cose.Msg.Model
+import Cose.Msg.Kdf
 /-!
 # C08 — the message arrays have a fixed arity
 
@@ -37,5 +38,37 @@ theorem wire_needs_array (k : Kind) (c : Cbor) (h : ∀ xs, untag c ≠ .arr xs)
 -- non-vacuity: a five-member COSE_Sign1 array
 example : wireOfCbor .sign1 (.arr [.bstr [], .map [], .bstr [1], .bstr [2], Cbor.null]) = .err :=
   wire_arity_exact .sign1 _ (by decide)
+
+/-! ## members of the wrong (non-null) type -/
+
+/-- a member declared `[]byte` holds a byte string or null (possibly tagged); text, integers, maps, booleans, floats and
+    the other simple values are refused (arrays are the known finding D12 and stay outside the statement) -/
+theorem byte_member_wrong_type_rejected (c : Cbor) (hb : ∀ b, c ≠ .bstr b) (h22 : c ≠ .simple 22) (h23 : c ≠ .simple 23)
+    (ht : ∀ t v, c ≠ .tag t v) (ha : ∀ xs, c ≠ .arr xs) : bytesField c = .err := by
+  cases c with
+  | bstr b => exact absurd rfl (hb b)
+  | tag t v => exact absurd rfl (ht t v)
+  | arr xs => exact absurd rfl (ha xs)
+  | simple n =>
+    unfold bytesField
+    split <;> first | rfl | (rename_i h; first | exact absurd h h22 | exact absurd h h23 | cases h)
+  | _ => rfl
+
+/-- **a COSE_KDF_Context party whose identity, nonce or other member has a wrong type is refused**, whichever member it
+    is and whatever the other two hold -/
+theorem party_member_wrong_type_rejected (a b d : Cbor)
+    (h : bytesField a = .err ∨ bytesField b = .err ∨ bytesField d = .err) : partyInfoField (.arr [a, b, d]) = .err := by
+  unfold partyInfoField
+  simp only [untag]
+  rcases h with h | h | h
+  · rw [h]
+  · rw [h]; cases bytesField a <;> rfl
+  · rw [h]; cases bytesField a <;> cases bytesField b <;> rfl
+
+-- non-vacuity: a text nonce, a map as identity, a boolean as other
+example : partyInfoField (.arr [.bstr [1], .tstr [0x6e], Cbor.null]) = .err :=
+  party_member_wrong_type_rejected _ _ _ (.inr (.inl (byte_member_wrong_type_rejected _ (by simp) (by simp) (by simp) (by simp) (by simp))))
+example : partyInfoField (.arr [.map [], .bstr [], .bstr []]) = .err := party_member_wrong_type_rejected _ _ _ (.inl rfl)
+example : partyInfoField (.arr [.bstr [], .bstr [], .simple 21]) = .err := party_member_wrong_type_rejected _ _ _ (.inr (.inr rfl))
 
 end Cose.Props.C08Wire
